@@ -147,10 +147,10 @@ THEOREM CreateDirAllWF ==
 THEOREM CopyFileWF ==
   ASSUME UniverseOK, NEW t, TreeType(t), WellFormed(t), NEW s \in Universe, NEW d \in Universe
   PROVE  WellFormed(CopyFile(t, s, d).t)
-<1>1. CASE ~(t[s].k = "file" /\ t[d].k = "none" /\ IsDirAt(t, Parent(d))) BY <1>1 DEF CopyFile, Ok, InvAny, InvErr, Fail, TreeType
+<1>1. CASE ~(t[s].k = "file" /\ t[d].k = "none" /\ IsDirAt(t, Parent(d))) BY <1>1 DEF CopyFile, Ok, InvAny, InvErr, InvNF, SrcMissing, Fail, TreeType
 <1>2. CASE t[s].k = "file" /\ t[d].k = "none" /\ IsDirAt(t, Parent(d))
   <2> DEFINE u == [t EXCEPT ![d] = t[s]]
-  <2>1. CopyFile(t, s, d).t = u BY <1>2 DEF CopyFile, Ok
+  <2>1. CopyFile(t, s, d).t = u BY <1>2 DEF CopyFile, Ok, SrcMissing
   <2>2. ASSUME NEW q \in Universe, u[q].k # "none" PROVE IsDirAt(u, Parent(q))
     <3>1. CASE q = d BY <1>2, <3>1, ParentNeq DEF IsDirAt, Kind, TreeType, Root, UniverseOK
     <3>2. CASE q # d
@@ -165,11 +165,11 @@ THEOREM CopyFileWF ==
 THEOREM MoveFileWF ==
   ASSUME UniverseOK, NEW t, TreeType(t), WellFormed(t), NEW s \in Universe, NEW d \in Universe
   PROVE  WellFormed(MoveFile(t, s, d).t)
-<1>1. CASE ~(t[s].k = "file" /\ t[d].k = "none" /\ IsDirAt(t, Parent(d))) BY <1>1 DEF MoveFile, Ok, InvAny, InvErr, Fail, TreeType
+<1>1. CASE ~(t[s].k = "file" /\ t[d].k = "none" /\ IsDirAt(t, Parent(d))) BY <1>1 DEF MoveFile, Ok, InvAny, InvErr, InvNF, SrcMissing, Fail, TreeType
 <1>2. CASE t[s].k = "file" /\ t[d].k = "none" /\ IsDirAt(t, Parent(d))
   <2> DEFINE u == [t EXCEPT ![d] = t[s], ![s] = Absent]
   <2>0. s # d BY <1>2
-  <2>1. MoveFile(t, s, d).t = u BY <1>2 DEF MoveFile, Ok
+  <2>1. MoveFile(t, s, d).t = u BY <1>2 DEF MoveFile, Ok, SrcMissing
   <2>2. ASSUME NEW q \in Universe, u[q].k # "none" PROVE IsDirAt(u, Parent(q))
     <3>0. q # s BY <2>2 DEF TreeType, Absent
     <3>1. CASE q = d
@@ -204,10 +204,10 @@ LEMMA NotBelowParent ==
 THEOREM CopyDirWF ==
   ASSUME UniverseOK, NEW t, TreeType(t), WellFormed(t), NEW s \in Universe, NEW d \in Universe
   PROVE  WellFormed(CopyDir(t, s, d).t)
-<1>1. CASE ~(t[s].k = "dir" /\ t[d].k = "none" /\ IsDirAt(t, Parent(d))) BY <1>1 DEF CopyDir, Ok, OkVal, InvAny, InvErr, Fail, TreeType
+<1>1. CASE ~(t[s].k = "dir" /\ t[d].k = "none" /\ IsDirAt(t, Parent(d))) BY <1>1 DEF CopyDir, Ok, OkVal, InvAny, InvErr, InvNF, SrcMissing, Fail, TreeType
 <1>2. CASE t[s].k = "dir" /\ t[d].k = "none" /\ IsDirAt(t, Parent(d))
   <2> DEFINE u == [q \in Universe |-> IF q = d THEN Dir ELSE IF StrictPrefix(d, q) THEN Copied(t, s, d, q) ELSE t[q]]
-  <2>1. CopyDir(t, s, d).t = u BY <1>2 DEF CopyDir, OkVal
+  <2>1. CopyDir(t, s, d).t = u BY <1>2 DEF CopyDir, OkVal, SrcMissing
   <2>2. ASSUME NEW q \in Universe, u[q].k # "none" PROVE IsDirAt(u, Parent(q))
     <3>a. q \in Seq(N) /\ d \in Seq(N) /\ s \in Seq(N) /\ q # <<>> /\ d # <<>> BY DEF UniverseOK
     <3>1. CASE q = d
@@ -242,11 +242,11 @@ THEOREM CopyDirWF ==
 THEOREM MoveDirWF ==
   ASSUME UniverseOK, NEW t, TreeType(t), WellFormed(t), NEW s \in Universe, NEW d \in Universe, ~IsPrefix(s, d)
   PROVE  WellFormed(MoveDir(t, s, d).t)
-<1>1. CASE ~(t[s].k = "dir" /\ t[d].k = "none" /\ IsDirAt(t, Parent(d))) BY <1>1 DEF MoveDir, Ok, InvAny, InvErr, Fail, TreeType
+<1>1. CASE ~(t[s].k = "dir" /\ t[d].k = "none" /\ IsDirAt(t, Parent(d))) BY <1>1 DEF MoveDir, Ok, InvAny, InvErr, InvNF, SrcMissing, Fail, TreeType
 <1>2. CASE t[s].k = "dir" /\ t[d].k = "none" /\ IsDirAt(t, Parent(d))
   <2> DEFINE u == [q \in Universe |-> IF q = d THEN Dir ELSE IF StrictPrefix(d, q) THEN Copied(t, s, d, q)
                                       ELSE IF IsPrefix(s, q) THEN Absent ELSE t[q]]
-  <2>1. MoveDir(t, s, d).t = u BY <1>2 DEF MoveDir, Ok
+  <2>1. MoveDir(t, s, d).t = u BY <1>2 DEF MoveDir, Ok, SrcMissing
   <2>2. ASSUME NEW q \in Universe, u[q].k # "none" PROVE IsDirAt(u, Parent(q))
     <3>a. q \in Seq(N) /\ d \in Seq(N) /\ s \in Seq(N) /\ q # <<>> /\ d # <<>> BY DEF UniverseOK
     <3>1. CASE q = d
@@ -325,10 +325,10 @@ THEOREM FrameComposites ==
 <1>2. ~IsPrefix(p, x) => RemoveDirAll(t, p).t[x] = t[x] BY DEF RemoveDirAll, Ok, InvAny
 <1>3. ASSUME ~IsPrefix(q, x) PROVE CopyFile(t, p, q).t[x] = t[x] /\ CopyDir(t, p, q).t[x] = t[x]
   <2>1. x # q /\ ~StrictPrefix(q, x) BY <1>3, PrefixRefl, StrictIsPrefix DEF UniverseOK
-  <2> QED BY <2>1 DEF CopyFile, CopyDir, Ok, OkVal, Fail, InvAny, InvErr, TreeType
+  <2> QED BY <2>1 DEF CopyFile, CopyDir, Ok, OkVal, Fail, InvAny, InvErr, InvNF, SrcMissing, TreeType
 <1>4. ASSUME ~IsPrefix(q, x), ~IsPrefix(p, x) PROVE MoveFile(t, p, q).t[x] = t[x] /\ MoveDir(t, p, q).t[x] = t[x]
   <2>1. x # q /\ ~StrictPrefix(q, x) /\ x # p BY <1>4, PrefixRefl, StrictIsPrefix DEF UniverseOK
-  <2> QED BY <2>1, <1>4 DEF MoveFile, MoveDir, Ok, Fail, InvAny, InvErr, TreeType
+  <2> QED BY <2>1, <1>4 DEF MoveFile, MoveDir, Ok, Fail, InvAny, InvErr, InvNF, SrcMissing, TreeType
 <1> QED BY <1>1, <1>2, <1>3, <1>4
 
 \* a specified failure changes nothing
